@@ -19,8 +19,8 @@ from valida.datapath import DataPath
 from valida.schema import Schema
 
 META = {
-    "rule": "every history of <= depth transitions Si.add_schema(Tj, R) (3 targets, one of them empty, x 2 sources x 6 roots = 36 per state; at depth 2 also a composed target as the source, 18 more) "
-            "on shared live schema objects built from a 6-rule pool; state = the reference rule lists of the two targets; "
+    "rule": "every history of <= depth transitions Si.add_schema(Tj, R) (3 targets, one of them empty, x 3 sources x 6 roots = 54 per state; at depth 2 also a composed target as the source, 18 more) "
+            "on shared live schema objects built from a 10-rule pool (one source holds rules whose paths differ only in 1 / 1.0 or only in a part label); state = the reference rule lists of the two targets; "
             "executions are histories (each replayed from scratch), none merged; non-trivial = history of >= 2 additions "
             "(same source twice, two targets, or two roots)",
     "assumptions": ["'T's judgement of what lies at R' is evaluated for cast-free sources on every non-empty container "
@@ -39,10 +39,17 @@ R2 = T.rule(P((("prim", "b"), Ls)), L("Value", "greater_than", 0))
 R3 = T.rule(P((M,)), L("ValueDataType", "in_", [int, dict, list]))
 R4 = T.rule(P((("prim", "a"), ("prim", "b"))), L("Value", "less_than", 3))
 R5 = T.rule(P((("prim", "x"),)), L("ValueDataType", "equal_to", int), (("str", "int"),))
-INIT = {"S1": (R0, R1), "S2": (R4,), "S3": (), "T1": (R1, R2), "T2": (R3, R5, R0)}
+# a source whose rule paths differ only in the type of an equal-valued part (1: list index or mapping key; 1.0: mapping key
+# only) or only in a part label
+R6 = T.rule(P((("prim", 1),)), L("Value", "truthy"))
+R7 = T.rule(P((("prim", 1.0),)), L("Value", "equal_to", "q"))
+R8 = T.rule(P((("map", ("lit", "a"), None, "L1"),)), L("Value", "less_than", 9))
+R9 = T.rule(P((("map", ("lit", "a"), None, "L2"),)), L("ValueDataType", "equal_to", int))
+INIT = {"S1": (R0, R1), "S2": (R4,), "S3": (), "T1": (R1, R2), "T2": (R3, R5, R0), "T3": (R6, R7, R8, R9)}
+SOURCES = ("T1", "T2", "T3")
 TARGETS = ("S1", "S2", "S3")
 ROOTS = [(), (("prim", "a"),), (("prim", "a"), ("prim", "b")), (("prim", 0),), (Ls,), (M,)]
-MENU = [(s, t, r) for s in TARGETS for t in ("T1", "T2") for r in range(len(ROOTS))]
+MENU = [(s, t, r) for s in TARGETS for t in SOURCES for r in range(len(ROOTS))]
 # nested composition: a target that has itself received a schema is added to another target (roots 1, 2, 5 only)
 MENU_NESTED = [(s, t, r) for s in TARGETS for t in TARGETS if s != t for r in (1, 2, 5)]
 
@@ -51,6 +58,8 @@ DOCS = [
     [{"a": 1, "b": [0]}, {"a": 2}, 5, []], {"a": {"a": {"a": 1}}, "b": {"a": 2, "x": "z"}}, {"a": {"b": 5}, "x": "7"},
     {0: {"a": 2, "b": [1]}, "a": 1}, {"a": "s", "b": "t"}, {"a": {"b": [{"a": 3}, {"a": 1}]}}, {"x": "1", "a": {"x": "q"}},
     {"a": {"a": 1, "b": {"a": 1, "b": [0, 0]}}, "b": [{"a": 2}]}, [[{"a": 1}], {"b": [0]}],
+    # a list / a mapping with key 1 / a mapping with key 1.0 at the roots
+    [0, 0, "q"], {"a": [5, 0, 7], 1: "q"}, {"a": {1: 0, "a": "x"}, 1.0: 0}, {"a": {"b": ["q", "q"], "a": 12}}, [[1, 0], {"a": 10, 1: "q"}],
 ]
 
 
@@ -77,8 +86,8 @@ class World:
     def __init__(self):
         self.obj = {k: T.build_schema(("schema", v)) for k, v in INIT.items()}
         self.model = dict(INIT)
-        self.src_snap = {k: snap(self.obj[k]) for k in ("T1", "T2")}
-        self.src_obs = {k: [observe(self.obj[k], d) for d in DOCS] for k in ("T1", "T2")}
+        self.src_snap = {k: snap(self.obj[k]) for k in SOURCES}
+        self.src_obs = {k: [observe(self.obj[k], d) for d in DOCS] for k in SOURCES}
 
 
 def units(tier):
@@ -146,7 +155,7 @@ def run_history(res, hist):
                 res.violation("source-changed:composed", "after %s.add_schema(%s, ..) the (composed) source %s changed" % (s, t, t), case,
                               observed=[repr(r) for r in got_t], expected=[T.show(r) for r in w.model[t]])
                 return False
-        for k in ("T1", "T2"):
+        for k in SOURCES:
             if snap(w.obj[k]) != w.src_snap[k]:
                 res.violation("source-changed:%s" % ("same" if k == t else "other"),
                               "after %s.add_schema(%s, %s) the source schema %s is no longer as it was: rules now %r"
